@@ -50,6 +50,7 @@ typedef struct
 
 } Skinny64CTRVec128Ctx_t;
 
+static void skinny64_ctr_vec128_rewind(Skinny64CTRVec128Ctx_t *ctx);
 static int skinny64_ctr_vec128_set_counter
     (Skinny64CTR_t *ctr, const void *counter, unsigned size);
 
@@ -93,8 +94,8 @@ static int skinny64_ctr_vec128_set_key(Skinny64CTR_t *ctr, const void *key, unsi
     if (!skinny64_set_key(&(ctx->kt.ks), key, size))
         return 0;
 
-    /* Reset the keystream */
-    ctx->offset = SKINNY64_CTR_BLOCK_SIZE;
+    /* Reset the keystream to the next unused block */
+    skinny64_ctr_vec128_rewind(ctx);
     return 1;
 }
 
@@ -114,8 +115,8 @@ static int skinny64_ctr_vec128_set_tweaked_key
     if (!skinny64_set_tweaked_key(&(ctx->kt), key, key_size))
         return 0;
 
-    /* Reset the keystream */
-    ctx->offset = SKINNY64_CTR_BLOCK_SIZE;
+    /* Reset the keystream to the next unused block */
+    skinny64_ctr_vec128_rewind(ctx);
     return 1;
 }
 
@@ -133,8 +134,8 @@ static int skinny64_ctr_vec128_set_tweak
     if (!skinny64_set_tweak(&(ctx->kt), tweak, tweak_size))
         return 0;
 
-    /* Reset the keystream */
-    ctx->offset = SKINNY64_CTR_BLOCK_SIZE;
+    /* Reset the keystream to the next unused block */
+    skinny64_ctr_vec128_rewind(ctx);
     return 1;
 }
 
@@ -157,6 +158,41 @@ STATIC_INLINE void skinny64_ctr_increment
         ptr[0] = (uint8_t)inc;
         inc >>= 8;
     }
+}
+
+/* Decrement a specific column in an array of row vectors */
+STATIC_INLINE void skinny64_ctr_decrement
+    (SkinnyVector8x16_t *counter, unsigned column, unsigned dec)
+{
+    uint8_t *ctr = ((uint8_t *)counter) + column * 2;
+    uint8_t *ptr;
+    unsigned index;
+    for (index = 8; index > 0; ) {
+        --index;
+        ptr = ctr + (index & 0x06) * 8;
+#if SKINNY_LITTLE_ENDIAN
+        ptr += index & 0x01;
+#else
+        ptr += 1 - (index & 0x01);
+#endif
+        dec = ptr[0] - dec;
+        ptr[0] = (uint8_t)dec;
+        dec = (dec >> 8) & 1; /* borrow */
+    }
+}
+
+/* Called when the key or tweak changes.  Discards the buffered keystream
+   and rewinds the counter so that the stream resumes with the first block
+   that has not been used yet, exactly as the generic back end does */
+static void skinny64_ctr_vec128_rewind(Skinny64CTRVec128Ctx_t *ctx)
+{
+    if (ctx->offset < SKINNY64_CTR_BLOCK_SIZE) {
+        unsigned unused = (SKINNY64_CTR_BLOCK_SIZE - ctx->offset) / SKINNY64_BLOCK_SIZE;
+        unsigned column;
+        for (column = 0; column < 8; ++column)
+            skinny64_ctr_decrement(ctx->counter, column, unused);
+    }
+    ctx->offset = SKINNY64_CTR_BLOCK_SIZE;
 }
 
 static int skinny64_ctr_vec128_set_counter
